@@ -109,6 +109,23 @@ func main() {
 					if _, ok := e.(undecided); !ok {
 						reason = fmt.Sprintf("checker panic: %v\n%s", e, debug.Stack())
 					}
+					// violations found before the analysis had to stop are a verdict: report them (exit 1); only when
+					// there is none (or all are listed findings) is the run undecided
+					if _, isUndecided := e.(undecided); isUndecided {
+						hasBad := false
+						for _, o := range r.Obs {
+							if o.Verdict == VViolation {
+								hasBad = true
+							}
+						}
+						if hasBad {
+							r.warn("analysis stopped early: %s", reason)
+							if fc := finish(r, w, *verif, *tier, seed, time.Since(t0).Seconds()+loadS, cmdline); fc == 1 {
+								c = 1
+								return
+							}
+						}
+					}
 					fmt.Printf("UNDECIDED property=%s reason=%s\n", id, reason)
 					writeUndecidedEvidence(id, *verif, *tier, seed, time.Since(t0).Seconds()+loadS, reason, registry[id].level)
 					c = 2
